@@ -104,10 +104,12 @@ def strip_comments(txt):
 
 
 def theorem_names(pid):
-    path = os.path.join(COQ, "Props", pid + ".v")
-    if not os.path.exists(path): return []
-    txt = strip_comments(open(path).read())
-    return re.findall(r"^\s*Theorem\s+([A-Za-z0-9_']+)", txt, re.M)
+    names = []
+    for path in (os.path.join(COQ, "Props", pid + ".v"), os.path.join(COQ, "Props", pid + "_checker.v")):
+        if not os.path.exists(path): continue
+        txt = strip_comments(open(path).read())
+        names += re.findall(r"^\s*Theorem\s+([A-Za-z0-9_']+)", txt, re.M)
+    return names
 
 
 def print_assumptions(pid, names, extra_q=()):
@@ -116,6 +118,7 @@ def print_assumptions(pid, names, extra_q=()):
     f = os.path.join(d, "pa_%s.v" % pid)
     with open(f, "w") as h:
         h.write("From Signalo Require Import Props.%s.\n" % pid)
+        if os.path.exists(os.path.join(COQ, "Props", pid + "_checker.v")): h.write("From Signalo Require Import Props.%s_checker.\n" % pid)
         for n in names:
             h.write('Goal True. idtac "@@%s". Abort.\nPrint Assumptions %s.\n' % (n, n))
     cmd = ["coqc", "-noglob", "-Q", COQ, "Signalo"]
@@ -315,7 +318,8 @@ def decide(pid, tier, seed, replay=None):
             violations.append(("translator", gen_info.get("error", "translator failed"), None, False))
 
     # 2. proofs
-    targets = ["Props/%s.vo" % pid, "Check/%s.vo" % pid, "Check/Float.vo", "Proofs/Generic.vo"]
+    targets = ["Props/%s.vo" % pid, "Check/%s.vo" % pid, "Check/Float.vo", "Proofs/Generic.vo", "Base/Bits.vo", "Proofs/Translate.vo"]
+    if os.path.exists(os.path.join(COQ, "Props", pid + "_checker.v")): targets.append("Props/%s_checker.vo" % pid)
     ok, log = coq_make(targets)
     proof_ok = os.path.exists(os.path.join(COQ, "Props", pid + ".vo")) and ok
     check_ok = os.path.exists(os.path.join(COQ, "Check", pid + ".vo"))
